@@ -288,7 +288,9 @@ def vauth_run(w, path, name, shards=SHARDS, chunk=64):
 
     def one(i):
         out = os.path.join(d, "trace%d.ndjson" % i)
-        txt = vlib.vh(["vauth", "-behaviours", path, "-out", out, "-shard", str(i), "-of", str(shards), "-chunk", str(chunk)], cmd="vh_lanes")
+        # precondition dimension: odd shards run in a world whose vauth module account holds a stray balance
+        stray = "777" if (i % 2 == 1 or shards == 1) else "0"
+        txt = vlib.vh(["vauth", "-behaviours", path, "-out", out, "-shard", str(i), "-of", str(shards), "-chunk", str(chunk), "-stray", stray], cmd="vh_lanes")
         m = re.findall(r"operations executed (\d+)", txt)
         return out, int(m[-1]) if m else 0
 
